@@ -631,6 +631,23 @@ def gen_conc(repo, build):
             if fn is not None and fn != m.group(1):
                 reconf.append((m.group(1), fn))
     rc_txt = ", ".join('("%s", "%s")' % t for t in sorted(set(reconf)))
+    # functions that return or fill a buffer shared by the whole process
+    nonre = []
+    for path in srcs:
+        if not path.endswith(".c"):
+            continue
+        raw = open(path).read()
+        raw = re.sub(r"/\*.*?\*/", lambda m_: " " * len(m_.group(0)), raw, flags=re.S)
+        raw = re.sub(r"//[^\n]*", lambda m_: " " * len(m_.group(0)), raw)
+        for m in re.finditer(r"(?<![\w>.])(strtok|localtime|gmtime|asctime|ctime|strerror|rand|srand|setlocale|tmpnam|putenv|setenv|unsetenv|"
+                             r"readdir|getpwnam|getpwuid|gethostbyname|inet_ntoa|ttyname|getlogin|ERR_error_string)\s*\(", raw):
+            if m.group(1) == "ERR_error_string":
+                # with a caller-supplied buffer the call is re-entrant; with NULL it formats into a static one
+                args = raw[m.end():raw.index(")", m.end())]
+                if not re.search(r",\s*NULL\s*$", args):
+                    continue
+            nonre.append((os.path.relpath(path, repo), m.group(1)))
+    nr_txt = ", ".join('("%s", "%s")' % t for t in sorted(set(nonre)))
     # queries on a (shared) keyring must not write it: list mutations, stores through pointers, allocation
     jsrc = open(os.path.join(repo, "libjwt/jwks.c")).read()
     jsrc = re.sub(r"/\*.*?\*/", " ", jsrc, flags=re.S)
@@ -676,9 +693,15 @@ def keyringQueryWrites : List (String × Nat) := [{qw}]
 library functions other than themselves: (callee, caller) -/
 def internalReconfigCalls : List (String × String) := [{rc_txt}]
 
+/-- calls, anywhere in the library sources, of C / OpenSSL / GnuTLS functions that return or fill a buffer shared by the whole
+process (`strtok`, `localtime`, `gmtime`, `asctime`, `ctime`, `strerror`, `rand`, `getenv`-modifying calls, `setlocale`,
+`tmpnam`, `ERR_error_string` with a NULL buffer, `gnutls_strerror_name`-style static tables are const and not listed):
+(file, function) -/
+def nonReentrantCalls : List (String × String) := [{nr_txt}]
+
 end Jwt.Generated
 """
-    return "ConcFacts.lean", text, {"statics": writable, "writers": {k: sorted(v) for k, v in writers.items()}, "table_writes": table_writes, "casts": casts,
+    return "ConcFacts.lean", text, {"statics": writable, "non_reentrant": nonre, "writers": {k: sorted(v) for k, v in writers.items()}, "table_writes": table_writes, "casts": casts,
                                     "query_writes": qwrites, "internal_reconfig_calls": sorted(set(reconf))}
 
 
